@@ -463,12 +463,12 @@ int main(int argc, char **argv)
         { 6, 6, 2, 2, { 24, 29 }, { 29, 23 }, 1, 0x1303 },
     };
     static const char *hcls[2][2] = { { "hrr-clienthello1-rewrite", "hrr-clienthello2-rewrite" }, { "hrr-helloretryrequest-rewrite", "hrr-serverhello-rewrite" } };
-    for (int hi = 0; hi < (int) (sizeof hrr / sizeof hrr[0]); hi++) {
+    for (int hi = 0; hi < (int) (sizeof hrr / sizeof hrr[0]) - (vf_thorough ? 0 : 1); hi++) {   /* the last configuration is for the thorough tier */
         cfg_t c = base; c.cmask = hrr[hi].cm; c.smask = hrr[hi].sm; c.ngroupsC = hrr[hi].ngC; c.ngroupsS = hrr[hi].ngS; memcpy(c.groupsC, hrr[hi].gC, sizeof c.groupsC); memcpy(c.groupsS, hrr[hi].gS, sizeof c.groupsS);
         c.shares = 1; c.ecdsa = hrr[hi].ecdsa; c.hrr = 1; if (hrr[hi].suite) { c.nsu = 1; c.su[0] = hrr[hi].suite; }
         add_case(&c, NULL, "tls13-hrr");
         for (int which = 1; which <= 2; which++) for (int kind = 1; kind <= 2; kind++) for (int f = 0; f < F_N; f++) {
-            int reps = (f == F_EXT_REMOVE || f == F_EXT_DUP) ? 12 : f == F_EXT_EDIT ? (vf_thorough ? 200 : 30) : (f == F_RANDOM_TAIL) ? 4 : (f == F_SUITE_DROP) ? 4 : 2;
+            int reps = (f == F_EXT_REMOVE || f == F_EXT_DUP) ? 12 : f == F_EXT_EDIT ? (vf_thorough ? 200 : 24) : (f == F_RANDOM_TAIL) ? 4 : (f == F_SUITE_DROP) ? 4 : 2;
             for (int r = 0; r < reps; r++) { tamper_t t = { kind, f, r, (int) vf_below(&g, 600), which };
                 if (f == F_LEGACY) t.arg = r ? 2 : 1; if (f == F_SUITE_INSERT) t.arg = r ? 0x0005 : 0x002f; if (f == F_SUITE_SET) t.arg = r ? 0x002f : (c.nsu && c.su[0] == 0x1301 ? 0x1302 : 0x1301); if (f == F_EXT_EDIT) t.arg = r;
                 add_case(&c, &t, hcls[kind - 1][which - 1]); } }
@@ -485,7 +485,7 @@ int main(int argc, char **argv)
         if (vf_thorough) { for (int m = 1; m < 256; m++) { nl[n] = 0; for (int i = 0; i < 8; i++) if (m & (1 << i)) lists[n][nl[n]++] = U[i]; n++; } }
         else {
             for (int i = 0; i < 8; i++) { lists[n][0] = U[i]; nl[n++] = 1; }                                                     /* singletons */
-            for (int i = 0; i < 8; i++) { nl[n] = 0; for (int j = 0; j < 8; j++) if (j != i) lists[n][nl[n]++] = U[j]; n++; }     /* all but one */
+            if (role == 1) for (int i = 0; i < 8; i++) { nl[n] = 0; for (int j = 0; j < 8; j++) if (j != i) lists[n][nl[n]++] = U[j]; n++; }     /* all but one */
             for (int i = 0; i < 8; i++) if (U[i] != ident[id].chainAlg) { lists[n][0] = ident[id].chainAlg; lists[n][1] = U[i]; nl[n++] = 2; }   /* the chain's algorithm (needed for the certificate to be presentable) + one */
             nl[n] = 0; for (int i = 0; i < 8; i++) if (!sig_usable(v13, ident[id].kt, U[i])) lists[n][nl[n]++] = U[i]; if (nl[n]) n++;   /* everything the key cannot sign */
             nl[n] = 0; lists[n][nl[n]++] = ident[id].chainAlg; for (int i = 0; i < 8; i++) if (!sig_usable(v13, ident[id].kt, U[i]) && U[i] != ident[id].chainAlg) lists[n][nl[n]++] = U[i]; n++;
